@@ -89,11 +89,13 @@ int main(int argc, char** argv)
     for (int s : { SIGSEGV, SIGBUS, SIGILL, SIGFPE, SIGALRM, SIGABRT })
         sigaction(s, &sa, nullptr);
 
-    // index: (kind,op,type) -> list of (arch index, fn)
+    // index: (kind,op,type) -> list of (arch index, fn); VD_ONLY=<arch>,<arch> restricts the run to some architectures
     std::map<std::string, std::vector<std::pair<int, vd::Fn>>> index;
     auto& reg = vd::registry();
+    std::string only = getenv("VD_ONLY") ? std::string(",") + getenv("VD_ONLY") + "," : std::string();
     for (size_t ai = 0; ai < reg.size(); ++ai)
         for (auto& e : reg[ai].entries)
+            if (only.empty() || only.find("," + reg[ai].name + ",") != std::string::npos)
             index[std::string(e.kind) + " " + e.op + " " + e.type].push_back({ (int)ai, e.fn });
 
     static char line[1 << 16];
